@@ -315,7 +315,14 @@ def diff_kinds(a_block, b_block, query):
 
 def reload_ops(view_before, how):
     att = sorted(view_before.csess) if view_before is not None and view_before.loaded else []
-    back = [("N", "sub", [s, "-", 0]) for s in att]
+
+    def again(s):
+        # a mode-less {sub} re-attaches a session without changing anything - except for a user whose want has no J
+        # (attached by re-stating that want, branch t-same): there it would un-self-ban.  Such a session comes back
+        # the way it came, with its current want spelled out.
+        p = view_before.cusers.get(view_before.csess[s])
+        return T.hx(p["want"]) if p is not None and "J" not in p["want"] else "-"
+    back = [("N", "sub", [s, again(s), 0]) for s in att]
     if how == "unload":
         return [("N", "leave", [s, 0]) for s in att] + [("N", "unload", [])] + back
     return [("N", "restart", [])] + back
@@ -485,6 +492,7 @@ def run(ctx):
     quick = ctx.tier == "quick"
     rng = ctx.rng
     stats = {}
+    phase = {"proofs_and_builds": round(time.time() - ctx.t0, 1)}
 
     # ---- base histories
     scns = []
@@ -532,11 +540,12 @@ def run(ctx):
             for sc in T.gen_scenarios(ctx, max(1, int(total * share)), profile, faults, nops=(6, 20), prefix="p%d_" % pi):
                 sc.ops = sc.ops + probes(rng, sc)
                 scns.append(sc)
-        gscns, _, gcov = PERM.gen_guided(ctx, 30 if quick else 300, extra_max=20 if quick else 100)
+        gscns, _, gcov = PERM.gen_guided(ctx, 28 if quick else 150, extra_max=20)
         for sc in gscns:
             sc.ops = sc.ops + probes(rng, sc)
             scns.append(sc)
             guided.add(sc.id)
+    phase["generation"] = round(time.time() - ctx.t0 - phase["proofs_and_builds"], 1)
     t0 = time.time()
     impl = run_and_view(ctx, scns, "base")
     t_impl = time.time() - t0
@@ -602,11 +611,11 @@ def run(ctx):
                 if quick:
                     rng.shuffle(cand)
                     cand.sort(key=lambda kb: reload_after.get(kb[1], 0))
-                    cand = cand[:3]
+                    cand = cand[:2]
                 pos = []
                 for k, b in cand:
                     reload_after[b] = reload_after.get(b, 0) + 1
-                    pos.append((k + 1, PERTURB[(k + len(variants)) % 2] if quick else None))
+                    pos.append((k + 1, PERTURB[(k + len(variants) + len(pos)) % 2]))
             elif quick:
                 pos = [(rng.randint(1, n), rng.choice(PERTURB))]
             else:
@@ -649,6 +658,7 @@ def run(ctx):
                       % (what, k, sc.ops[min(k, len(sc.ops) - 1)], sorted(kinds), json.dumps(det, default=str)[:600], len(lst)),
                       {"head": small.head, "ops": small.ops, "insert_at": sp, "how": how, "law": law, "fields": sorted(kinds), "detail": det})
 
+    t_sw = time.time()
     # ---- fault sweep: Fail(k)/Crash(k) at every adapter call of every mutating request
     # (thorough: all; quick: a sample stratified by (request kind, call index, F/C))
     sweep = 0
@@ -681,7 +691,7 @@ def run(ctx):
                     per[x[3]] = per.get(x[3], 0) + 1
                     pick.append(x)
             pick.sort(key=lambda x: len(x[3]))
-            sw = pick[:240] + [x for x in pick[240:] if len(x[3]) == 5][:140]
+            sw = pick[:240] + [x for x in pick[240:] if len(x[3]) == 5][:80]
         else:
             sw = sw[:4000]
         sweep = len(sw)
@@ -710,6 +720,7 @@ def run(ctx):
                         ctx.violation("monitor", law, "law %s fails on the implementation's trace (fault sweep): %s" % (law, detail),
                                       {"head": c.head, "ops": c.ops[:k + 1], "law": law, "detail": detail})
 
+    phase["fault_sweep"] = round(time.time() - t_sw, 1)
     # ---- correspondence verdict
     nfail = len(ctx.violations)
     searched = 0
@@ -778,7 +789,7 @@ def run(ctx):
             nt.add(hash(tuple(map(repr, sig))))
     ctx.coverage.update({
         "evaluations": len(scns) + len(variants) + sweep, "distinct_nontrivial": len(nt),
-        "rule": "seeded random histories over one group topic (profiles msg and perm of topiclib: 2-5 users x 1-2 sessions, seeded subscriptions with assorted want/given; pub/note/get*/delmsg/leave/sub/setsub/delsub/unload/restart, 6-20 requests, about a third with single store faults F k / C k) plus MODEL-GUIDED permission histories (tools/props/c08perm.py: 3-5 users + one user id that is in no table, owner and member rows of 22 shapes, the extracted classifier perm_branch_c08c probed on candidate {sub}/{set sub} requests built from the model's current want/given - same, one bit more, one bit less, without J, with/without O, default, N, junk, every session and target - and the least-visited branch chosen; each followed by get sub / get desc from the requester, the target and a third session; movers leave/unsubscribe/evict/publish/unload+re-attach/restart), all followed by probe queries (getdesc+getsub for every session, getdata+getdel for three); each history is run unperturbed and with the topic reloaded (leave all; unload; re-attach) or the process restarted (restart; re-attach) before one random request (before EVERY request for %s histories; for the model-guided histories right after three permission requests each, spread over the branches) and every later query answer and the stored rows are compared; the Fail(k)/Crash(k) sweep over the adapter calls of mutating requests is stratified in the quick tier (request kind, call index, F/C, branch of a guided permission request) and complete up to 4000 runs in the thorough tier; non-trivial = at least one accepted mutating request; distinct by (requests, replies)" % ("5" if quick else "all"),
+        "rule": "seeded random histories over one group topic (profiles msg and perm of topiclib: 2-5 users x 1-2 sessions, seeded subscriptions with assorted want/given; pub/note/get*/delmsg/leave/sub/setsub/delsub/unload/restart, 6-20 requests, about a third with single store faults F k / C k) plus MODEL-GUIDED permission histories (tools/props/c08perm.py: 3-5 users + one user id that is in no table, owner and member rows of 22 shapes, the extracted classifier perm_branch_c08c probed on candidate {sub}/{set sub} requests built from the model's current want/given - same, one bit more, one bit less, without J, with/without O, default, N, junk, every session and target - and the least-visited branch chosen; each followed by get sub / get desc from the requester, the target and a third session; movers leave/unsubscribe/evict/publish/unload+re-attach/restart), all followed by probe queries (getdesc+getsub for every session, getdata+getdel for three); each history is run unperturbed and with the topic reloaded (leave all; unload; re-attach) or the process restarted (restart; re-attach) before one random request (before EVERY request for %s histories; for the model-guided histories right after two permission requests each, spread over the branches) and every later query answer and the stored rows are compared; the Fail(k)/Crash(k) sweep over the adapter calls of mutating requests is stratified in the quick tier (request kind, call index, F/C, branch of a guided permission request) and complete up to 4000 runs in the thorough tier; non-trivial = at least one accepted mutating request; distinct by (requests, replies)" % ("5" if quick else "all"),
         "operations_executed": nops + sum(len(v[0].ops) for v in variants),
         "base_histories": len(scns), "perturbed_runs": len(variants), "fault_sweep_runs": sweep, "fault_sweep_strata": stats.get("sweep_strata", 0),
         "perturbed_runs_differing": {k: len(v) for k, v in dfails.items()},
@@ -789,11 +800,12 @@ def run(ctx):
         "input_distribution": {"op_kinds": kinds_c, "ctrl_codes": codes, "faults": faults_seen,
                                "users_per_scenario": sorted(set(sc.nusers for sc in scns)),
                                "ops_per_scenario_max": max(len(sc.ops) for sc in scns)},
-        "impl_wall_s": round(t_impl, 1), "differential_wall_s": round(t_var, 1),
+        "impl_wall_s": round(t_impl, 1), "differential_wall_s": round(t_var, 1), "phase_wall_s": phase,
         "trusted_base": [
             "projection compared for C08: answers to getdesc/getsub/getdata/getdel, ctrl replies, every stored row of the topic (topic row, subscriptions, messages, deletion log), cached lastID/delID/owner and per-user want/given/read/recv/delID",
             "the reload perturbation is built from requests of the alphabet (leave without unsub for every attached session; idle unload through hub.unreg; re-attach with a {sub} that carries no mode), so it runs only real code",
-            "harness/overlay/server/zz_verif_topic_test.go: drives the real Hub/Topic/Session code through Session.dispatchRaw, quiescence by goroutine-state snapshot; dumps Topic.perUser/lastID/delID/owner at quiescence",
+            "harness/overlay/server/zz_verif_topic_test.go: drives the real Hub/Topic/Session code through Session.dispatchRaw, quiescence by goroutine-state snapshot; dumps Topic.perUser/lastID/delID/owner at quiescence; entry point of this property: harness/overlay/server/zz_verif_c08c_test.go (TestVerifC08cPerm: the same loop and helpers + 'ghost n' = a user id that is in no table, and the owner's grant of the scn line written with store.Subs.Update)",
+            "tools/props/c08perm.py + harness/runner/r_c08c.ml: the generator's branch labels come from the extracted Coq classifier perm_branch_c08c evaluated on the MODEL's state; they decide what is generated and what the evidence counts, never a verdict",
             "harness/overlay/server/db/memverif: in-memory adapter written from db/mysql/adapter.go (store contract modelled, not verified; the SQL engines are not run)",
             "tools/props/c08.py monitors: python restatement of the load path (initTopicGrp/loadSubscribers) and of the property on the implementation's trace",
             "model scope: one group topic (non-channel), LevelAuth users, no attachments/calls/presence frames; set-desc/tags/public/private are covered by the separate model Sys/TopicDesc.v (c08desc.py) when present"],
@@ -807,9 +819,19 @@ def run(ctx):
     for sc in scns:
         for k, b in branches.get(sc.id, {}).items():
             bdist[b] = bdist.get(b, 0) + 1
-            code = reply_code(views[sc.id][k], sc.ops[k][2][0]) if k < len(views[sc.id]) else None
+            if sc.ops[k][0] != "N":
+                continue
+            code = None
+            for sid_, t_ in (views[sc.id][k].frames if k < len(views[sc.id]) else []):
+                if sid_ == sc.ops[k][2][0] and t_.startswith("ctrl ") and not t_.startswith("ctrl 205"):
+                    code = int(t_.split()[1])
             bcodes.setdefault(b, {})
             bcodes[b][str(code)] = bcodes[b].get(str(code), 0) + 1
+    unexpected = {}
+    for b, cs in bcodes.items():
+        for cd, cnt in cs.items():
+            if b in PERM.EXPECT and cd not in PERM.EXPECT[b]:
+                unexpected.setdefault(b, {})[cd] = cnt
     empty = [b for b in PERM.REQUIRED if not bdist.get(b)]
     ctx.coverage["perm_branches"] = {
         "rule": "branch of thisUserSub (t-*) / anotherUserSub (a-*) / replyOfflineTopicSetSub (o-*) taken by each {sub}/{set sub} request of the base histories, as labelled by the extracted Coq classifier PermBranchC08c.perm_branch_c08c in the state the request starts from; model-guided histories: %d of %d base histories" % (len(guided), len(scns)),
@@ -818,11 +840,14 @@ def run(ctx):
         "required_branches": len(PERM.REQUIRED), "required_branches_empty": empty,
         "self_raise_requests": sum(bdist.get(b, 0) for b in PERM.RAISE),
         "implementation_reply_codes_per_branch": bcodes,
+        "fault_free_replies_outside_the_branch_expectation": unexpected,
         "reloads_right_after_branch": reload_after,
         "fault_sweep_runs_per_branch": sweep_br,
     }
     if empty and not ctx.replay:
         ctx.notes.append("permission branches not visited by this run's generator: %s" % ", ".join(empty))
+    if unexpected:
+        ctx.notes.append("fault-free replies outside the expectation of the branch label (classifier vs implementation): %s" % json.dumps(unexpected))
     finish(ctx)
 
 
